@@ -126,7 +126,7 @@ fn tamper_items(w: &World, tier: Tier) -> Vec<(Spec, usize)> {
 	let classes: Vec<(u8, u8, Fin)> = vec![(1, 3, Fin::KeysendSecret), (3, 2, Fin::MetaMax(0)), (0, 2, Fin::Custom(1))];
 	for (amt, cltv, fin) in classes {
 		let mx = max_n_for(w, amt, cltv, &fin, 0);
-		let mut ns: Vec<usize> = if tier.is_thorough() { vec![1, 2, 3, 7, mx / 2, mx - 1, mx] } else { vec![1, 2, mx] };
+		let mut ns: Vec<usize> = if tier.is_thorough() { (1..=mx).collect() } else { vec![1, 2, mx] };
 		ns.sort();
 		ns.dedup();
 		for n in ns {
@@ -240,6 +240,8 @@ fn run_tamper(w: &World, spec: &Spec, hop: usize, all_bits: bool, only: Option<F
 		},
 	};
 	o.stats.inc("tamper_hop_packets");
+	// non-trivial: an untampered packet that this hop accepts, and that is then corrupted
+	o.digests.push(mc_common::digest128(&packet_bytes(&walk.msgs[hop].onion_routing_packet)));
 	if let Some(flip) = only {
 		o.stats.inc("tamper_cases");
 		if let Err(d) = try_flip(w, &c, &walk, hop, &flip, &mut o.stats) {
@@ -421,6 +423,9 @@ fn one_failtamper(w: &World, c: &Case, secrets: &[[u8; 32]], chain: &[FailMsg], 
 	let d = decode_failure(w, c, &msg);
 	let mut mis = Vec::new();
 	check_tampered(c, p, m, clean, &d, &mut mis, &mut o.stats);
+	if mis.is_empty() {
+		o.digests.push(mc_common::digest128(format!("{}|{}|{}|{:?}", c.spec.n, p, m, d).as_bytes()));
+	}
 	for (oracle, detail) in mis {
 		if o.violations.len() >= 6 {
 			break;
@@ -532,7 +537,7 @@ fn run_fulfil_item(w: &World, spec: &Spec, part: Option<usize>, tier: Tier) -> I
 		},
 		Some(m) => {
 			let chain = fulfil_chain(&secrets, h - 1, hold_time(h - 1));
-			let all_bits = tier.is_thorough() && h <= 3;
+			let all_bits = tier.is_thorough() && h <= 5;
 			for byte in 0..920usize {
 				for bit in 0..8 {
 					if all_bits || (byte % 4 == 0 && bit == (byte / 4) % 8) {
@@ -782,7 +787,18 @@ fn main() {
 				agg.stats.inc("failure_path_lengths_without_a_fitting_route");
 			}
 		}
-		for (n, b) in [(1usize, 1usize), (2, 1), (2, 2), (5, 2), (3, 3), (20, 2)] {
+		let blinded_paths: Vec<(usize, usize)> = if tier.is_thorough() {
+			let mut v = Vec::new();
+			for n in [1usize, 2, 3, 5, 8, 19, 20, 21] {
+				for b in 1..=3usize {
+					v.push((n, b));
+				}
+			}
+			v
+		} else {
+			vec![(1, 1), (2, 1), (2, 2), (5, 2), (3, 3), (20, 2)]
+		};
+		for (n, b) in blinded_paths {
 			if let Some(s) = secrets_spec(&w, n, b) {
 				for p in 0..n {
 					items.push((s.clone(), p));
@@ -805,14 +821,14 @@ fn main() {
 	if want("failtamper") {
 		let t = Instant::now();
 		let mut items: Vec<(Spec, usize, usize, u8)> = Vec::new();
-		let ns: Vec<usize> = if tier.is_thorough() { vec![1, 2, 3, 4, 6, 12, 20, 21, 27] } else { vec![1, 2, 3, 6, 21] };
+		let ns: Vec<usize> = if tier.is_thorough() { vec![1, 2, 3, 4, 5, 6, 9, 12, 19, 20, 21, 22, 27] } else { vec![1, 2, 3, 6, 21] };
 		for n in ns {
 			if let Some(s) = secrets_spec(&w, n, 0) {
-				let ps: BTreeSet<usize> = if tier.is_thorough() && n <= 6 { (0..n).collect() } else { [n - 1, n / 2].into_iter().collect() };
+				let ps: BTreeSet<usize> = if tier.is_thorough() && n <= 12 { (0..n).collect() } else { [n - 1, n / 2].into_iter().collect() };
 				for p in ps {
 					let ms: BTreeSet<usize> = if tier.is_thorough() || p <= 6 { (0..=p).collect() } else { [0, 1, p / 2, p - 1, p].into_iter().collect() };
 					for m in ms {
-						let density = if tier.is_thorough() { if n <= 3 { 2 } else { 1 } } else if n <= 6 { 1 } else { 0 };
+						let density = if tier.is_thorough() { if n <= 4 { 2 } else { 1 } } else if n <= 6 { 1 } else { 0 };
 						items.push((s.clone(), p, m, density));
 					}
 				}
@@ -934,7 +950,7 @@ fn main() {
 	ev.set("distinct_nontrivial", agg.digests.len() as u64);
 	ev.set(
 		"rule",
-		"distinct successful outcomes: 128-bit digests of (a) first-hop onion packets that were constructed and then peeled hop by hop down to a final Receive with every per-hop field equal to the route, (b) decoded failure attributions that matched the failing hop, code, data and hold times, (c) decoded fulfil hold-time vectors that matched",
+		"distinct successful outcomes, by 128-bit digest: (a) first-hop onion packets that were constructed and then peeled hop by hop down to a final Receive with every per-hop field equal to the route, (b) per-hop packets that the hop accepted untampered and that were then corrupted bit by bit, (c) decoded failure attributions that matched the failing hop, code, data and hold times, (d) decoded outcomes of corrupted failures that satisfied the oracle, (e) decoded fulfil hold-time vectors that matched",
 	);
 	ev.set("violations_found_before_truncation", violations_found as u64);
 	ev.set("exhaustive", !capped);
